@@ -235,8 +235,8 @@ class Ctx:
                         "(G)+(V) every behaviour executed on the real code built from /repo and checked event by event by TLC against the trace specification")
         cov.update(self.notes)
         if self.level != "model_checking":
-            cov["evaluations"] = max(self.traces, 1)
-            cov["distinct_nontrivial"] = max(self.traces, 2) if self.traces >= 2 else 2
+            cov["evaluations"] = int(self.notes.get("evaluations", max(self.events, 1)))
+            cov["distinct_nontrivial"] = int(self.notes.get("distinct_nontrivial", max(self.traces, 2)))
         write_evidence(self.prop, self.tier, self.level, cov, time.time() - self.t0, self.violations, self.assumptions)
         log("property %s tier %s: %d states, %d transitions, %d behaviours / %d events validated, %d violations, %.0fs"
             % (self.prop, self.tier, self.states, self.transitions, self.traces, self.events, self.violations, time.time() - self.t0))
@@ -485,3 +485,17 @@ def c05(ctx):
     ctx.design("Replication", "MC_Replication_quick.cfg" if q else "MC_Replication_thorough.cfg")
     n, ops = (10, 60) if q else (150, 120)
     ctx.gv("leader-follower-histories", "Trace_Repl", ["repl", "--seed", str(seed()), "--n", str(n), "--ops", str(ops)], racy=True)
+
+
+@check("C16")
+def c16(ctx):
+    ctx.level = "exploration"
+    ctx.assumptions += ["TLC enumerates an abstract space of request CLASSES (table empty/unknown/known, key empty/ok/1024/1025 bytes, value ok/2 MiB/2 MiB+1, limit, flags, revision filters, nested transaction operations, leader/follower tables API); one concrete request per class is sent. Fidelity to all malformed wire inputs is not claimed: 300-3000 mutated wire messages are sampled",
+                        "the server is built by the real createAPIServer wiring (verif export) around a one-node engine and runs in a child process; 'state unchanged' = full range of the table and the table list before/after",
+                        "for oversized fields and nested violations any non-OK status is admissible; the outcome of an invalid operation in the branch that is not executed is left open"]
+    q = ctx.quick
+    cases = ctx.design("MC_Validate", "MC_Validate.cfg", workers=1)
+    ctx.notes["request_classes"] = len(cases)
+    ctx.notes["distinct_nontrivial"] = len(set(cases))
+    ctx.notes["rule"] = "one case per request class of MC_Validate (all distinct by construction) plus seeded mutated wire messages; non-trivial = every class exercises at least one validation branch or the success path"
+    ctx.gv("request-classes", "Trace_Validate", ["api", "--seed", str(seed()), "--fuzz", str(300 if q else 3000)], inputs=cases)
